@@ -247,6 +247,22 @@ func genCore(c *Ctx, mode string) {
 	if mode == "C07" {
 		failStopProbes(c)
 	}
+	if mode == "C03" {
+		for i, pr := range bindProbes {
+			if c.Shards > 1 && i%c.Shards != c.Shard {
+				continue
+			}
+			o := coreRun(pr.src + "\n")
+			got := strings.Join(strings.Fields(o.Stdout), " ")
+			rec := Rec{Src: pr.src, Impl: got, NT: true, Tags: []string{"bind-probe"}}
+			if o.Kind == "syntax" {
+				rec.Skip = "probe-does-not-parse"
+			} else if got != pr.want || o.Kind != "val" {
+				rec.Oracle = fmt.Sprintf("binding gives [%s] (%s %s), the property states [%s]", got, o.Kind, o.ErrMsg, pr.want)
+			}
+			c.Em.Emit(rec)
+		}
+	}
 	if mode == "C07" && c.Shard == 0 {
 		for _, src := range []string{"g := {|x, y| [x, y]}\n1.^g(ValueErr.new(\"dropped\")).p\n\"after\".p\n"} {
 			o := coreRun(src)
@@ -402,6 +418,27 @@ func failStopOracle(base, inj Outcome, msg string, kind string) string {
 	return ""
 }
 
+// bindProbes (no model involved, and independent of how the parser desugars literals): fixed programs with the
+// bindings the property states
+var bindProbes = []struct{ src, want string }{
+	{"{|a, b, c| [a, b, c]}(1, 2).p", "[1, 2, nil]"},
+	{"{|a| [a, \\0]}(1, 2, 3).p", "[1, [1, 2, 3]]"},
+	{"{|a, k: 5, j: 6| [a, k, j, \\_]}(1, j: 9).p", "[1, 5, 9, {\"j\": 9}]"},
+	{"{|a, k: 5| [a, k]}(k: 7, 1).p", "[1, 7]"},
+	{"{[\\, \\1, \\2, \\0]}(4, 5).p", "[4, 4, 5, [4, 5]]"},
+	{"{|a, b| [a, b]}(*[1, 2, 3]).p", "[1, 2]"},
+	{"{|a, k: 0| [a, k, \\k]}(1, **{k: 2}).p", "[1, 2, 2]"},
+	{"o := {v: 1, get: m{self.v}, add: m{|n| self.v + n}}\n[o.get, o.add(2)].p", "[1, 3]"},
+	{"o := {v: 1, add: m{|self, n| [n, \\0.len]}}\no.add(5, 7).p", "[7, 3]"},
+	{"o := {v: 1, f: {|x, n| [x.v, n]}}\no.f(5).p", "[1, 5]"},
+	{"o := {v: 1, w: m{|a, b| [self.v, a, b, \\0.len]}}\no.w(2).p", "[1, 2, nil, 3]"},
+	{"f := {|x| x * 2}\n[3.^f, [1, 2]@^f].p", "[6, [2, 4]]"},
+	{"g := {|x| .v + x.v}\n{v: 4}.{|r| g(r)}.p", "8"},
+	{"x := 1\nf := {|| x}\nx := 2\n[f(), {|| x := 9; f()}(), x].p", "[2, 2, 2]"},
+	{"x := 1\nmk := {|| {|| x}}\nh := mk()\na := h()\nx := 5\n[a, h(), {|x| h()}(7)].p", "[1, 5, 5]"},
+	{"x := 1\nf := {|| x := 2; x += 3; x}\n[f(), x].p", "[5, 1]"},
+}
+
 // failStopProbes (no model involved): fixed programs, one per shape that a fail-stop defect has been seen to need (a
 // yield before the raise, defers before and after it, a raise in a default / guard / chain step / nested call ...).
 // Each prints markers; `want` lists what must be printed, and the program must end with ValueErr "boom".
@@ -433,6 +470,19 @@ var failStopProbeList = []struct{ src, want string }{
 	{"f := {|a| defer {|| defer \"i1\".p; \"i2\".p}(); boom()}\nf(0)\n\"after\".p", "i2 i1"},
 	{"a := [t(1), *[t(2), boom()], t(4)]\n\"after\".p", "1 2"},
 	{"f := {|kx: 0| kx}\nf(**{kx: t(1), b: boom()})\n\"after\".p", "1"},
+	// functions handed to the library (matching, selecting, mapping): a raise inside them is the call's error
+	{"bp := {|x| boom()}\n(\"abc\" === bp).p\n\"after\".p", ""},
+	{"bp := {|x| boom()}\n(\"abc\" !== bp).p\n\"after\".p", ""},
+	{"bp := {|x| t(x); boom() if x == 3; true}\n[1, 3, 5].grep(bp).p\n\"after\".p", "1 3"},
+	{"bp := {|x| boom()}\n\"abc\".case(%{bp: 1, Str: 2}).p\n\"after\".p", ""},
+	{"[1, 2, 3].all?{|x| t(x); boom() if x == 2; true}.p\n\"after\".p", "1 2"},
+	{"[1, 2, 3].any?{|x| t(x); boom() if x == 2; false}.p\n\"after\".p", "1 2"},
+	{"[1, 2, 3].select{|x| t(x); boom() if x == 2; true}.p\n\"after\".p", "1 2"},
+	{"[1, 2, 3].exclude{|x| t(x); boom() if x == 2; true}.p\n\"after\".p", "1 2"},
+	{"[1, 2, 3].map{|x| t(x); boom() if x == 2; x}.p\n\"after\".p", "1 2"},
+	{"[1, 2, 3].keyBy{|x| t(x); boom() if x == 2; x}.p\n\"after\".p", "1 2"},
+	{"5.tap{|x| t(x); boom()}.p\n\"after\".p", "5"},
+	{"[1, 2, 3].index{|x| boom()}.p\n\"after\".p", ""},
 }
 
 func failStopProbes(c *Ctx) {
@@ -587,6 +637,11 @@ func layoutProbes(c *Ctx) {
 		dp := []string{}
 		for j, k := 0, 2+c.Rng.Intn(3); j < k; j++ {
 			dp = append(dp, fmt.Sprintf("%s: %d", dn[c.Rng.Intn(len(dn))], j))
+		}
+		if c.Rng.Intn(3) == 0 {
+			// keyword arguments that arrive through `**` with several private names, enumerated by the callee
+			body = append(body, "po := {_alpha: 1, _beta: 2, _gamma: 3, _delta: 4, _eps: 5, pub: 6}\nfp := {|| [\\_.keys(private?: true), %{**\\_}.keys, \\_.items(private?: true).len, \\_.values(private?: true)]}\n"+
+				"fp(**po).p\nfp(x: 0, **po).p\nfp(**po, **{_zeta: 7, _aa: 8}).p\n{**po, **{_zeta: 7}}.keys(private?: true).p")
 		}
 		if c.Rng.Intn(3) == 0 {
 			// str keys that would print alike under a careless escaping (a control character / its backslash spelling)
